@@ -95,13 +95,17 @@ def run(ctx):
         consts[cfg] = dict(states=mc["states"], transitions=mc["transitions"], depth=mc["depth"], scenarios=mc["emitted"])
     for (cfg, expect), mc in zip(WITNESS, wit):
         consts[cfg] = dict(states=mc["states"], violated=mc["violated"])
-    # sweeps over every real call index x 4 outcomes: short scenarios that do not generate keys, one per model run
-    swept, want = 0, (3 if quick else 30)
-    for s in scs:
-        if swept < want and not no_certs(s) and sum(1 for e in s["hist"] if e.get("k") == "get" and str(e.get("o", "")).startswith("rev-")) == 2 \
-                and not any(e.get("k") == "nest" for e in s["hist"]) and s["id"].split("-")[1] == "m%d" % (swept % 3):
+    # sweeps over every real call index x 4 outcomes: per model run the longest fault-free histories of two reconciles
+    # without a nested reconcile (they do not generate keys: "certs" start)
+    def sweepable(s):
+        h = s["hist"]
+        return (not no_certs(s) and all(e.get("f") in ("ok", "", None) for e in h) and not any(e.get("k") == "nest" for e in h)
+                and sum(1 for e in h if e.get("k") == "get" and str(e.get("o", "")).startswith("rev-")) == 2)
+    per = 1 if quick else 10
+    for i in range(len(cfgs)):
+        cands = sorted((s for s in scs if s["id"].split("-")[1] == "m%d" % i and sweepable(s)), key=lambda s: -len(s["hist"]))
+        for s in cands[:per]:
             s["sweepme"] = True
-            swept += 1
     scs.sort(key=lambda s: not s.get("sweepme", False))      # spread them over the shards
     chosen = regression() + scs
     s, nlines = drive_and_judge(ctx, chosen, shards=6 if quick else 10)
